@@ -209,3 +209,11 @@ func VerifNamespaceFireConnectionHold(n *Namespace) *VerifHeld {
 	hs := n.connectionHandlers.getAll()
 	return &VerifHeld{get: func() []uintptr { return codePtrs(hs) }}
 }
+
+// VerifCloseEngine closes the Engine.IO connection under a server socket
+// (the server-side reason is `forced close`, which is recoverable).
+func VerifCloseEngine(s ServerSocket) {
+	if ss, ok := s.(*serverSocket); ok {
+		go ss.conn.eio.Close()
+	}
+}
